@@ -362,7 +362,7 @@ func ruleR03_6(c *Check) {
 	r.DomAll(f, "acknowledge before return", retAfter, 0, callDone, 0)
 	// done stores the error and releases the waiter for every request
 	errFld := w.Field("badger.request.Err")
-	r.Exists(len(done.Sites(selStore(errFld))) == 1, done, "done stores request.Err", nil, "done does not set r.Err")
+	r.Exists(len(done.Sites(selStore(errFld))) >= 1, done, "done stores request.Err", nil, "done does not set r.Err")
 	r.DomAll(done, "Wg.Done after Err stored", selPred("Wg.Done", func(w *World, fn *Fn, n ast.Node) bool {
 		call, ok := n.(*ast.CallExpr)
 		if !ok {
@@ -508,7 +508,7 @@ func ruleR04_2(c *Check) {
 		return ok && w.Callee(call) == w.Func("skl.Skiplist.NewUniIterator")
 	})
 	lvl := selCall(w.Func("badger.levelsController.appendIterators"))
-	r.Exists(len(f.Sites(pend)) == 1, f, "pending iterator appended", nil, "NewIterator does not append the pending-writes iterator")
+	r.Exists(len(f.Sites(pend)) >= 1, f, "pending iterator appended", nil, "NewIterator does not append the pending-writes iterator")
 	r.NeverAfterAll(f, "pending iterator not appended after a memtable iterator", mem, 0, pend, 0)
 	r.NeverAfterAll(f, "pending iterator not appended after level iterators", lvl, 0, pend, 0)
 	r.NeverAfterAll(f, "memtable iterators not appended after level iterators", lvl, 0, mem, 0)
